@@ -310,6 +310,8 @@ def verify(contract, all_contracts=(), timeout_ms=10000, mutate=None, negate_pos
             env = Env(spec_globals, dict(args))
             eng.spec_fallback = spec_globals
             eng.param_env = env
+            eng.caller_env = env
+            eng.ghost_before_call = getattr(contract, 'ghost_before_call', {})
             env.vars['__locals__'] = assigned_names(body)
             old_vals = {k: eng.snapshot(v) for k, v in args.items()}
             old_vals.update({k: eng.snapshot(v) for k, v in eng.heap.items()})
